@@ -6,8 +6,11 @@ cd "$(dirname "$0")/.."
 ids=${@:-$(ls seeded | grep '^C')}
 bad=0
 for id in $ids; do
-  out=$(LINES_MAX=3 tools/trymut.sh seeded/$id/patch.diff ${id:0:3} 2>&1)
-  rc=$(echo "$out" | sed -n 's/^== .* rc=\([0-9]*\)$/\1/p' | head -1)
+  # the checks that report it: the C?? ids named in meta.json's caught_by (default: the property's own check)
+  checks=$(jq -r '.caught_by // ""' seeded/$id/meta.json 2>/dev/null | grep -o 'C[0-9][0-9]' | sort -u | tr '\n' ' ')
+  [ -n "$checks" ] || checks=${id:0:3}
+  out=$(LINES_MAX=3 tools/trymut.sh seeded/$id/patch.diff $checks 2>&1)
+  rc=$(echo "$out" | sed -n 's/^== .* rc=\([0-9]*\)$/\1/p' | sort -u | grep -m1 -x 1 || echo "$out" | sed -n 's/^== .* rc=\([0-9]*\)$/\1/p' | head -1)
   first=$(echo "$out" | grep -m1 '^  \[' | cut -c1-160)
   if [ "$rc" = 1 ]; then echo "$id caught: $first"; else echo "$id NOT CAUGHT (rc=$rc)"; echo "$out" | tail -3; bad=1; fi
 done
